@@ -146,6 +146,49 @@ def run_case(ctx, rng, index, casedir):
         else:
             back = judge_file(coords, stable_recs, read_text(out_u), viol, sit, "view -f unstable")
             M.hit("records_s2u", len(back))
+    if stable_recs and len(stable_recs) == len(in_recs) and rng.random() < 0.3:
+        # the same conversion for a selection (-n NODE through an index): the selected records designate
+        # what they designate in the whole-file conversion - also when the index was made with another
+        # release of the graph (same segments and links, other contig names / offsets): the coordinates
+        # come from the graph given to view
+        import re
+        other_release = rng.random() < 0.5
+        igfa = gpath
+        if other_release:
+            shift = rng.randint(1, 500)
+            igfa = os.path.join(casedir, "g.earlier_release.gfa")
+            with open(igfa, "w") as f:
+                for l in g.lines(with_seq=False):
+                    if l.startswith("S\t"):
+                        l = re.sub(r"\tSO:i:(\d+)", lambda m_: f"\tSO:i:{int(m_.group(1)) + shift}", l)
+                        if shift % 2:
+                            l = re.sub(r"\tSN:Z:([^\t]*)", lambda m_: f"\tSN:Z:{m_.group(1)}_v1", l)
+                    f.write(l + "\n")
+            sit["selection_with_index_of_other_graph_release"] += 1
+        oi = run_cli(["index", gaf_in, igfa])
+        outcomes[f"index:{oi.kind}"] += 1
+        if oi.ok:
+            stable_lines = read_text(out_s).split("\n")
+            node = rng.choice(sorted({n for r in recs for n in r.nodes}))
+            sel = [i for i, r in enumerate(recs) if node in r.nodes]
+            out_n = os.path.join(casedir, "sel.gaf")
+            o = run_cli(["view", gaf_in, "-g", gpath, "-f", "stable", "-n", node, "-o", out_n])
+            outcomes[f"u2s_selection:{o.kind}"] += 1
+            sit["selection_conversions"] += 1
+            if not o.ok:
+                viol.append({"kind": "view_failed", "msg": f"view -f stable -n {node}: {o.brief()}", "witness": {"tb": o.tb[-600:], "other_release": other_release}})
+            else:
+                got = read_text(out_n).split("\n")
+                if got and got[-1] == "":
+                    got = got[:-1]
+                exp = [stable_lines[i] for i in sel]
+                if got != exp:
+                    d = next((k for k in range(min(len(got), len(exp))) if got[k] != exp[k]), None)
+                    viol.append({"kind": "selection_conversion_differs",
+                                 "msg": f"view -f stable -n {node} (index made with {'another release of' if other_release else ''} the graph): "
+                                        f"{len(got)} records vs {len(exp)} in the whole-file conversion" +
+                                        (f"; first difference {got[d][:160]!r} vs {exp[d][:160]!r}" if d is not None else ""),
+                                 "witness": {"node": node, "other_release": other_release}})
     for r in recs:
         if len(r.walk) >= 2 or r.walk[0][1] == "<":
             sigs.append(stable_hash([gsig, rgfa.path_str(r.walk), r.ps, r.pe]))
